@@ -28,6 +28,8 @@ def canon_float(x) -> str:
         return "~"
     if isinstance(x, float) and (math.isinf(x) or math.isnan(x)):
         return "~" if x == float("-inf") else repr(x)
+    if isinstance(x, int) and abs(x) > 10**300:
+        return "huge" if x > 0 else "-huge"
     return show(Fraction(repr(round(float(x), 9))))
 
 
@@ -38,6 +40,9 @@ def parse_val(s: str):
         return float("inf")
     if s == "-inf":
         return float("-inf")
+    if s in ("huge", "-huge"):
+        # a Python int too large for a double: finite for every comparison, but no number the formatter can write
+        return 10**400 if s == "huge" else -(10**400)
     f = Fraction(s)
     return int(f) if f.denominator == 1 and abs(f) < 2**53 and "/" not in s and "." not in s else float(f)
 
@@ -184,10 +189,13 @@ class Impl:
             static_line = "ehalt " + args[0]     # the model has no message text: whatever happens, this is its op
         else:
             static_line = None
+        huge = "huge" in line
         try:
             line = self._call(op, args, line)
         except Exception as e:  # noqa
             out = type(e).__name__
+            if huge and out == "OverflowError":
+                out = "ValueError"  # an unrepresentable magnitude refused: the same outcome class as a non-finite value
             if static_line:
                 line = static_line
             if op in ("enter",) and self.ctx and self.ctx[-1] is None:
